@@ -13,6 +13,11 @@ Figure(r, x, who, what, sc) ==
        /\ Chk(FromBE(r.v_n) = x, P, who \o "/" \o what \o "/wrong-value", sc, [got |-> r.v_n, want |-> ToBE(x, 0)])
        /\ (Has(r, "has_assets") => Chk(~r.has_assets, P, who \o "/" \o what \o "/not-pure-lovelace", sc, 0))
   ELSE Chk(~FitsU64(x), P, who \o "/" \o what \o "/spurious-error", sc, [err |-> r.err, want |-> ToBE(x, 0)])
+\* a map-typed field: the same entries, in whatever order (the withdrawals builder writes them in the ledger's account order)
+SameMapField(b1, i1, b2, i2, key) == (HasK(i1, key) = HasK(i2, key)) /\ (HasK(i1, key) =>
+   LET m1 == GetK(i1, key) m2 == GetK(i2, key)
+       pairs(b, m) == {<<Span(b, m.kids[2*j-1]), Span(b, m.kids[2*j])>> : j \in 1..(Len(m.kids) \div 2)} IN
+   m1.mt = 5 /\ m2.mt = 5 /\ Len(m1.kids) = Len(m2.kids) /\ pairs(b1, m1) = pairs(b2, m2))
 SameField(b1, i1, b2, i2, key) == (HasK(i1, key) = HasK(i2, key)) /\ (HasK(i1, key) => Span(b1, GetK(i1, key)) = Span(b2, GetK(i2, key)))
 Judge(e) ==
   LET sc == e.sc IN
@@ -31,7 +36,7 @@ Judge(e) ==
           \* the builder balances the same certificates / withdrawals / proposals that it emits
           /\ (Has(e.b.body, "ok") =>
                 LET bb == Parse(e.b.body.bytes) IN
-                Chk(~IsErr(bb) /\ SameField(e.body, body, e.b.body.bytes, bb, 4) /\ SameField(e.body, body, e.b.body.bytes, bb, 5) /\ SameField(e.body, body, e.b.body.bytes, bb, 20),
+                Chk(~IsErr(bb) /\ SameField(e.body, body, e.b.body.bytes, bb, 4) /\ SameMapField(e.body, body, e.b.body.bytes, bb, 5) /\ SameField(e.body, body, e.b.body.bytes, bb, 20),
                     P, "Builder/emits-different-content", sc, 0))
 Init == l = 1
 Next == /\ l <= Len(Rec)
